@@ -3,8 +3,8 @@
 # Like tools/mutant.sh but never touches /repo: the change is applied to a scratch worktree of
 # /repo's HEAD and a copy of the harness (path dependencies rewritten) is built against it.
 # The scratch worktree and build are kept between calls (incremental); --clean removes them.
-WT=/tmp/tcss-sc-wt; HS=/tmp/tcss-sc-harness; TG=/tmp/tcss-sc-target
-if [ "$1" = "--clean" ]; then git -C /repo worktree remove --force $WT 2>/dev/null; rm -rf $WT $HS $TG /tmp/tcss-sc-out; git -C /repo worktree prune; exit 0; fi
+P=${TCSS_SC_PREFIX:-tcss-sc}; WT=/tmp/$P-wt; HS=/tmp/$P-harness; TG=/tmp/$P-target
+if [ "$1" = "--clean" ]; then git -C /repo worktree remove --force $WT 2>/dev/null; rm -rf $WT $HS $TG /tmp/$P-out; git -C /repo worktree prune; exit 0; fi
 PATCH=$1; shift
 [ -d $WT ] || git -C /repo worktree add --detach $WT HEAD >/dev/null || exit 2
 ( cd $WT && git checkout -q -- . && git clean -fdq && git checkout -q --detach $(git -C /repo rev-parse HEAD) ) || exit 2
@@ -13,10 +13,10 @@ if [ "$PATCH" != "none" ]; then ( cd $WT && git apply "$PATCH_ABS" ) || { echo "
 if [ -z "$TCSS_SC_FREEZE" ] || [ ! -d $HS/src ]; then mkdir -p $HS/.cargo; rm -rf $HS/src; cp -r /verif/harness/src /verif/harness/Cargo.toml /verif/harness/Cargo.lock $HS/; fi
 sed -i "s|/repo/|$WT/|g" $HS/Cargo.toml
 printf '[net]\noffline = true\n[build]\ntarget-dir = "%s"\n' $TG > $HS/.cargo/config.toml
-( cd $HS && cargo build --release --offline >/tmp/tcss-sc-build.log 2>&1 ) || { echo "MACHINERY: harness build failed"; tail -5 /tmp/tcss-sc-build.log; exit 2; }
+( cd $HS && cargo build --release --offline >/tmp/$P-build.log 2>&1 ) || { echo "MACHINERY: harness build failed"; tail -5 /tmp/$P-build.log; exit 2; }
 for id in "$@"; do
-  if [ "$id" = "C17" ] || [ "$id" = "C20" ] || [ "$id" = "C15" ] || [ "$id" = "C04" ] || [ "$id" = "C16" ]; then ( cd $WT && CARGO_TARGET_DIR=$TG/repo-bin cargo build --release --offline -p taskchampion-sync-server --bin taskchampion-sync-server >/tmp/tcss-sc-build.log 2>&1 ) || echo "server binary build failed"; fi
-  out=$(TCSS_VERIF_DIR=/verif TCSS_OUT_DIR=/tmp/tcss-sc-out TCSS_SERVER_BIN=$TG/repo-bin/release/taskchampion-sync-server $TG/release/tcss-verif check $id ${TIER:-quick} 2>&1); rc=$?
+  if [ "$id" = "C17" ] || [ "$id" = "C20" ] || [ "$id" = "C15" ] || [ "$id" = "C04" ] || [ "$id" = "C16" ]; then ( cd $WT && CARGO_TARGET_DIR=$TG/repo-bin cargo build --release --offline -p taskchampion-sync-server --bin taskchampion-sync-server >/tmp/$P-build.log 2>&1 ) || echo "server binary build failed"; fi
+  out=$(TCSS_VERIF_DIR=/verif TCSS_OUT_DIR=/tmp/$P-out TCSS_SERVER_BIN=$TG/repo-bin/release/taskchampion-sync-server $TG/release/tcss-verif check $id ${TIER:-quick} 2>&1); rc=$?
   case $rc in
     0) echo "$id: MISSED";;
     1) echo "$id: DETECTED  $(echo "$out" | grep -m1 -A1 '^VIOLATION' | tail -1 | cut -c1-220)";;
